@@ -22,6 +22,7 @@ class WBMaster(Agent):
         self.spurious = 0
         self.has_cti = hasattr(bus, "cti")
         self.hold = False
+        self.burst_wait = False
 
     def done(self):
         return self.idx >= len(self.ops)
@@ -63,7 +64,9 @@ class WBMaster(Agent):
                     self.gap = max(1, self.ops[self.idx].get("gap", 0)) if self.idx < len(self.ops) else 0
             return
         # idle
-        if v[b.ack] or v[b.err]:
+        if (v[b.ack] or v[b.err]) and not self.burst_wait:
+            # (inside a registered-feedback burst the slave's acknowledge is a registered answer to the previous cycle's strobe: while the
+            # master inserts a wait state - stb low, cyc and cti held - a high ack is not a termination and is ignored, as the master does)
             self.spurious += 1
             self.bench.violate("spurious_termination", self.name, "ack/err high at cycle %d while the master is not requesting" % t)
         if self.idx >= len(self.ops) or self.hold:
@@ -74,6 +77,7 @@ class WBMaster(Agent):
         self._issue(w, t)
 
     def _issue(self, w, t):
+        self.burst_wait = False
         self._drive(w, self.ops[self.idx])
         self.state = "busy"
         self.waited = 0
@@ -95,6 +99,7 @@ class WBMaster(Agent):
             w(b.cyc, 1 if op.get("keep_cyc") else 0)
             self.state = "idle"
             self.gap = g - 1
+            self.burst_wait = bool(op.get("keep_cyc")) and self.idx > 0 and self.ops[self.idx - 1].get("cti", 0) in (1, 2)
 
 
 class WBSlave(Agent):
